@@ -6,6 +6,8 @@ import (
 	"strings"
 
 	"pgregory.net/rapid"
+
+	"verif/pk"
 )
 
 // ---------------------------------------------------------------------------------------------
@@ -462,6 +464,11 @@ func (g *sg) fn(name string, top bool) string {
 func (g *sg) imp() string {
 	kind := func() string { return g.pick("ikind", []string{"", "", "", "type ", "templ ", "trigger "}) }
 	mod := g.pick("imod", modNames)
+	if g.module && cycleGate() {
+		// gate "module-cycle": an imported module that imports a code module again closes a cycle
+		// (m -> m, m -> main -> m), and every such case dies the slow stack-overflow death
+		mod = g.pick("imod-gated", []string{"testing", "triggers", "templates", "net", "host", "nosuch", "z"})
+	}
 	if g.chance("braces", 60) {
 		var items []string
 		for i, k := 0, g.n("iitems", 1, 3); i < k; i++ {
@@ -499,6 +506,18 @@ func (g *sg) item() string {
 	default:
 		return g.fn(g.pick("fname", []string{"f", "g", "h", "main", "x", "e", "_"}), true)
 	}
+}
+
+var cycleGateState = -1
+
+func cycleGate() bool {
+	if cycleGateState < 0 {
+		cycleGateState = 0
+		if pk.GateOpen("module-cycle") {
+			cycleGateState = 1
+		}
+	}
+	return cycleGateState == 1
 }
 
 // genGrammar makes one module text; module=true prefers pub items.
